@@ -116,6 +116,8 @@ class AM:
             t = self.parse(tpl)
             if isinstance(t, list):
                 return False
+            if isinstance(s, ast.Expr) and isinstance(t, ast.expr):
+                s = s.value
             if not self._m(t, s, b):
                 return False
         self.bind = b
